@@ -146,13 +146,17 @@ contract(
         _OB_SOUND.format(d='result'),
         # ... and every descriptor on a node's 'bonding' list has the node listed under it
         _OB_COMPLETE.format(d='result', extra=''),
+        # a descriptor is a key only if some node is listed under it
+        "all(len(result[b]) > 0 for b in keys(result))",
     ],
     modifies=[],
     loops={
         0: Loop(over='open_bonds.items()', invariant=[
             _OB_SOUND.format(d='open_bonds_by_descriptor'),
-            _OB_COMPLETE.format(d='open_bonds_by_descriptor', extra=' and key_index(open_bonds, n) < _i0')]),
+            _OB_COMPLETE.format(d='open_bonds_by_descriptor', extra=' and key_index(open_bonds, n) < _i0'),
+            "all(len(open_bonds_by_descriptor[b]) > 0 for b in keys(open_bonds_by_descriptor))"]),
         1: Loop(over='bonding_types', invariant=[
+            "all(len(open_bonds_by_descriptor[b]) > 0 for b in keys(open_bonds_by_descriptor))",
             _OB_SOUND.format(d='open_bonds_by_descriptor'),
             _OB_COMPLETE.format(d='open_bonds_by_descriptor', extra=' and key_index(open_bonds, n) < _i0'),
             "all(attr(molecule, node, 'bonding')[j] in open_bonds_by_descriptor and "
